@@ -1,4 +1,5 @@
 import Percival.Proofs.AfMonRel
+import Percival.Proofs.HeapCreateAlloc
 /-!
 # C14 monitor soundness, registry piece (part A): list facts, skip conditions, frame lemma
 
@@ -217,7 +218,7 @@ theorem step_haDelete (key : Nat → Int) (ha : HeapAlloc.HeapA) (rc : Nat) (m :
     exact this
 
 def isHeapOp : Op → Bool
-  | .hInit | .hAdd _ _ | .hMin | .hDelmin | .hFree => true
+  | .hInit | .hAdd _ _ | .hMin | .hDelmin | .hFree | .hCreate _ => true
   | _ => false
 
 /-- the heap operations leave the event layer and the clock alone, and only advance the oracle -/
@@ -281,6 +282,20 @@ theorem stepOp_heap_frame (s : S) (op : Op) (hop : isHeapOp op = true) :
     split
     · exact ⟨rfl, rfl, Nat.le_refl _⟩
     · exact ⟨rfl, rfl, (step_haFree _ _).n⟩
+  · -- hCreate
+    rename_i els
+    have hm : s.m.n ≤ (initMem s).n := by
+      unfold initMem
+      cases hh : s.h with
+      | none => exact Nat.le_refl _
+      | some ha => exact (step_haFree _ _).n
+    rw [stepOp]
+    split
+    · exact ⟨rfl, rfl, Nat.le_refl _⟩
+    · have h1 := Percival.Proofs.HeapCreateAlloc.step_create
+        (Percival.Spec.AfMon.keyFn (els ++ s.keys)) (els.map (·.1)) (initMem s)
+      simp only
+      split <;> (rename_i heq; rw [heq] at h1; exact ⟨rfl, rfl, Nat.le_trans hm h1.n⟩)
 
 /-- the monitor's registry and clock are not touched by the heap operations, whatever the answer -/
 theorem monStep_heap_frame (ms : MState) (op : Op) (a : Ans) (hop : isHeapOp op = true) :
